@@ -295,6 +295,11 @@ func TestC17(t *testing.T) {
 					if !yield(c17Case{Kind: "variants-codons", Arg: refCodon + strand + format}) {
 						return
 					}
+					// the same sweep with another changed (and translatable) codon earlier in the gene: what one codon's
+					// translation leaves behind must not leak into the next
+					if !yield(c17Case{Kind: "variants-codons", Arg: refCodon + strand + format + "+prev"}) {
+						return
+					}
 				}
 			}
 		}
@@ -312,7 +317,12 @@ func TestC17(t *testing.T) {
 // gene ATG <codon> GCT TAA).
 func checkC17ThroughVariants(arg string, o *Obs) error {
 	refCodon, strand, format := arg[:3], arg[3:4], arg[4:]
-	gene := "ATG" + refCodon + "GCT" + "TAA"
+	prevRef, prevQry := "", ""
+	if strings.HasSuffix(format, "+prev") {
+		format = strings.TrimSuffix(format, "+prev")
+		prevRef, prevQry = "AAA", "AGA" // K -> R in every query, one codon upstream of the swept codon
+	}
+	gene := "ATG" + prevRef + refCodon + "GCT" + "TAA"
 	place := func(g string) string { // the gene as it sits in the genome
 		if strand == "+" {
 			return g
@@ -339,7 +349,7 @@ func checkC17ThroughVariants(arg string, o *Obs) error {
 		for j := 0; j < 15; j++ {
 			for k := 0; k < 15; k++ {
 				q := string([]byte{iupac15[i], iupac15[j], iupac15[k]})
-				m.Rows = append(m.Rows, FaRec{ID: fmt.Sprintf("q%d_%s", n, q), Seq: "CC" + place("ATG"+q+"GCT"+"TAA") + "CC"})
+				m.Rows = append(m.Rows, FaRec{ID: fmt.Sprintf("q%d_%s", n, q), Seq: "CC" + place("ATG"+prevQry+q+"GCT"+"TAA") + "CC"})
 				n++
 			}
 		}
